@@ -10,7 +10,7 @@ def run(chk, only=None):
     hc.load_athlib()
     import athlib.highjump  # noqa
     quick = chk.tier == 'quick'
-    nmax, Hmax = (2, 2) if quick else (3, 3)
+    nmax, Hmax = (2, 3) if quick else (3, 3)
     jobs = [j for j in hj_run.jobs_one(hj_run.CLAUSES_C03, nmax, Hmax, 600 if quick else 3000) if j[4] not in ('add_jumper',)]
     jobs += hj_run.jobs_jumpoff(hj_run.CLAUSES_C03 + ['jumpoff-result'], nmax, Hmax, 600 if quick else 3000)
     if only:
